@@ -8,10 +8,10 @@ NOTE_COMMON = ("Trusts go/packages+go/ssa, the engine's instruction semantics, t
                "witnesses per run are replayed against the real build (go test -overlay) and their observations compared.")
 claimed = {
  "C01": dict(
-   text="Bounded symbolic model checking of Document.String -> NewDocumentFromString on the real SSA: every forest shape with up to 3 nodes is an outer case, tags are chosen from an alphabet covering every tag class, and all value bytes, pointer bytes and the BOM flag are solver variables; chains of depth 8..13 and each of the 167 registered tags (root and child) are separate cases. The solver proves that the encoder's text is accepted and decodes to the same nodes (tag, value, pointer, order, nesting, Go type) and BOM flag.",
+   text="Bounded symbolic model checking of Document.String -> NewDocumentFromString on the real SSA: every forest shape with up to 3 nodes is an outer case, tags are chosen from an alphabet covering every tag class, and all value bytes, pointer bytes and the BOM flag are solver variables; chains of depth 8..13, husband / wife nodes inside and after families, and each of the 167 registered tags (root and child) are separate cases. The solver proves that the encoder's text is accepted and decodes to the same nodes (tag, value, pointer, order, nesting, Go type) and BOM flag.",
    ref="DESIGN.md §3 C01", note=NOTE_COMMON),
  "C02": dict(
-   text="Bounded symbolic model checking of Decoder.Decode against an independent reference model of the line grammar written from the statement: files of 1..2 (thorough 3) lines with symbolic level digits, value bytes and xref bytes, all terminator / blank / option combinations; the solver proves that every accepted file yields exactly the tree dictated by the levels and that the re-encoded normal form is a fixpoint.",
+   text="Bounded symbolic model checking of Decoder.Decode against an independent reference model of the line grammar written from the statement: files of 1..2 (thorough 3) lines with symbolic level digits, value bytes and xref bytes, all terminator / blank / option combinations, and files of 4..6 (thorough 7) lines in which every level digit is symbolic (every walk through the levels); the solver proves that every accepted file yields exactly the tree dictated by the levels and that the re-encoded normal form is a fixpoint.",
    ref="DESIGN.md §3 C02", note=NOTE_COMMON),
  "C03": dict(
    text="Bounded symbolic model checking of Decoder.Decode for totality: every input of 0..6 (thorough 8) fully symbolic ASCII bytes, 10 structure-aware hostile templates with symbolic level digits and value bytes, and the C02 grammar files, under all option combinations; every Go run-time check (index, nil, type assertion) is an implicit obligation. The solver proves that each path returns a document or an error naming the line, and that the only panic is the documented indent panic without AllowInvalidIndents.",
@@ -35,6 +35,12 @@ claimed = {
    text="Bounded symbolic model checking of the real DateRange.Compare (SSA interpreted, four symbolic dates): for every feasible path the solver proves that the returned relation is the documented one for the day intervals the code itself derives, never Invalid, that swapping operands gives the converse and that exactly one simplified verdict holds. All days of years 1..9999 and all 81 granularity combinations are covered by symbolic variables, not samples.",
    ref="DESIGN.md §3 C06", note="Agreement of Date.Time() with the calendar is C05's obligation. " + NOTE_COMMON),
 
+ "C10": dict(
+   text="Bounded symbolic model checking of MergeDocumentsAndIndividuals (the real Compare pipeline runs under the deterministic scheduler): a 3-person family merged with 9 variants of a second document (identical, renumbered, renumbered with more detail, edited copy with dropped / added people, disjoint, clashing pointers, empty, copies with a symbolic name byte) x default / strict / lenient thresholds x both argument orders. Every person carries a unique marker fact: each marker exactly once in the output, merged individuals join one left and one right person and hold the facts of both, inputs untouched, the output re-decodes to a fixpoint, every pointer names one record, every reference resolves, every family role still points to the same person. The missing pointer-rewriting step is a recorded known finding (8 signatures).",
+   ref="DESIGN.md §3 C10", note=NOTE_COMMON),
+ "C11": dict(
+   text="Bounded symbolic model checking of IndividualNodes.Compare under the schedule explorer and the happens-before race monitor: 8 input scenarios (renumbered copy, shared pointers, duplicated and crossed unique ids, identical twins, empty sides, a symbolic name byte) x Jobs 0..3 x thresholds (default; a symbolic MinimumWeightedSimilarity with Jobs 0/1; thorough: 0/0, 1/1, 0/1, 1/0); every schedule with at most one pre-emption at channel, sync.Map and mutex operations is a path. Every left and right individual in exactly one result, no empty result, every pair meets the (symbolic) threshold or shares an id or a trusted pointer, identical matching on every schedule and equal to the sequential run when no candidates tie; with Jobs 2 and 3 no two conflicting accesses to a field, element, global or map are unordered by synchronisation (reports are confirmed with the Go race detector).",
+   ref="DESIGN.md §3 C11", note="GOMAXPROCS is an environment choice {1,2,16} when the code asks for it; true parallelism, weak-memory effects, Jobs > 3 and pre-emption budgets > 1 are outside the bounds. " + NOTE_COMMON),
  "C12": dict(
    text="Bounded symbolic model checking of the similarity functions on the real SSA: JaroWinkler over every pair of byte strings of lengths 0..5 (thorough 0..7) with all 256 byte values symbolic, StringSimilarity on printable ASCII strings of lengths 0..3, DateRange.Similarity and its monotonicity on symbolic year-granularity dates (years 1..9999), the weighted surrounding similarity with symbolic component scores and weights, and IndividualNode / IndividualNodes.Similarity on individuals with symbolic names and birth years. Range [0,1], symmetry, identity, neutrality of missing data and monotonicity in distance are assertions over all values.",
    ref="DESIGN.md §3 C12", note="float64 is abstracted soundly (reals + uninterpreted monotone rounding, relative error 2^-53 + absolute 2^-1073), so exact last-ulp claims are not made; date similarity on month/day granularity and with a symbolic maxYears is outside the bounds (solver unknown). " + NOTE_COMMON),
